@@ -103,10 +103,11 @@ void ezc3d::c3d::readFile(unsigned int nByteToRead, char * c, int nByteFromPrevi
 }
 
 unsigned int ezc3d::c3d::hex2uint(const char * val, unsigned int len){
-    int ret(0);
-    for (unsigned int i = 0; i < len; i++)
-        ret |= static_cast<int>(static_cast<unsigned char>(val[i])) * static_cast<int>(pow(0x100, i));
-    return static_cast<unsigned int>(ret);
+    // Bytes beyond the width of the result cannot contribute to it
+    unsigned int ret(0);
+    for (unsigned int i = 0; i < len && i < sizeof(unsigned int); i++)
+        ret |= static_cast<unsigned int>(static_cast<unsigned char>(val[i])) << (8*i);
+    return ret;
 }
 
 int ezc3d::c3d::hex2int(const char * val, unsigned int len){
@@ -115,8 +116,8 @@ int ezc3d::c3d::hex2int(const char * val, unsigned int len){
     // convert to signed int
     // Find max int value
     unsigned int max(0);
-    for (unsigned int i=0; i<len; ++i)
-        max |= 0xFF * static_cast<unsigned int>(pow(0x100, i));
+    for (unsigned int i=0; i<len && i<sizeof(unsigned int); ++i)
+        max |= 0xFFu << (8*i);
 
     // If the value is over uint_max / 2 then it is a negative number
     int out;
